@@ -57,7 +57,11 @@ impl TimeParser {
                     *value = serde_json::Value::Number(norm.into());
                     Ok(())
                 } else if let Some(f) = n.as_f64() {
-                    // Treat float as seconds.
+                    // Treat float as seconds. Like integers, seconds have at most 11 digits; a larger
+                    // (or non-finite) float is not a time (`as i64` would silently saturate it).
+                    if !f.is_finite() || f.abs() >= 1e12 {
+                        return Err(format!("Unrecognized float time magnitude: {f}"));
+                    }
                     let secs = f.floor() as i64;
                     *value = serde_json::Value::Number(secs.into());
                     Ok(())
